@@ -11,6 +11,7 @@ import (
 	"regexp"
 	"strconv"
 	"strings"
+	"unicode/utf8"
 
 	"gonum.org/v1/gonum/graph"
 	"gonum.org/v1/gonum/graph/encoding"
@@ -607,6 +608,11 @@ func quoteID(s string) string {
 	// Quote if s is not an ID. This includes strings containing spaces, except
 	// if those spaces are used within HTML string IDs (e.g. <foo >).
 	if !isID(s) {
+		if strings.ContainsRune(s, utf8.RuneError) {
+			// The DOT lexer does not accept a literal U+FFFD
+			// in a quoted string; write it as an escape.
+			return strconv.QuoteToASCII(s)
+		}
 		return strconv.Quote(s)
 	}
 	return s
